@@ -16,6 +16,9 @@ Case grammar (one line):   <N>[n]|<step>;<step>;...
          | rs:<0|1> | mx:<n>                 reflect-to-self parameter; max update-message items
          | xsd:<relpath>:<0|1>:<b>           SetDataNode()        | xcl:<owner>/<relpath>:<reldst>:<0|1>:<b>  CloneDataNodeSubtree()
          | xmv:<relpattern>:<b>              MoveIndexEntries()   | xrm:<relpattern>                           RemoveDataNodes()
+         | xsr:<owner>/<relpath>:<reldst>:<0|1>   SaveNodeTreeToMessage() of that node + RestoreNodeTreeFromMessage() at <reldst>
+         | xra:<relpath>:<pos>               DataNode::RemoveIndexEntryAt() on an own node
+         | dt                                the client closes its connection (alone in its step)
   <b>   := '-' (empty string: end of index) | '!' (PR_NAME_REMOVE_FROM_INDEX) | a node name
   abspattern := <sid|*>/<clause>/...  (sent as /*/<session id|*>/...);  clauses are names or '*'.
 Generator discipline (the oracle's client needs it, see index_h.cpp): `un` travels alone; inside one step no su/sq
@@ -71,8 +74,11 @@ def gen_msg_cmd(rng, n, allow_sub=True):
 def gen_api_cmd(rng, n, sid):
     r = rng.random()
     par = rng.choice(PARENTS)
-    if r < 0.35:
+    if r < 0.25:
         return "xsd:%s/%s:%d:%s" % (par, rng.choice(KIDS), rng.randint(0, 1), rng.choice(BEFORE))
+    if r < 0.45:
+        owner = rng.randrange(n)
+        return "xsr:%d/%s:%s:%d" % (owner, rng.choice(["a", "a", "b", "a/x", "c", "a/I0"]), rng.choice(["c", "c", "d", "a", "b", "c/k", "a/x"]), rng.choice([0, 0, 1]))
     if r < 0.75:
         owner = rng.randrange(n)
         src = rng.choice(["a", "a", "b", "a/x", "a/I0", "c"])
@@ -80,9 +86,13 @@ def gen_api_cmd(rng, n, sid):
         if owner == sid and (src == dst or src.startswith(dst + "/") or dst.startswith(src + "/")):
             dst = "c" if not (src == "c" or src.startswith("c/")) else "d"
         return "xcl:%d/%s:%s:%d:%s" % (owner, src, dst, rng.randint(0, 1) if "/" in dst else rng.choice([0, 0, 1]), rng.choice(BEFORE))
-    if r < 0.9:
+    if r < 0.82:
         return "xmv:%s:%s" % (rng.choice(["a/" + rng.choice(KIDS), "a/*", "c/*", "*/x"]), rng.choice(BEFORE))
-    return "xrm:%s" % rng.choice(["a/" + rng.choice(KIDS), "c", "a/*", "d"])
+    if r < 0.88:
+        return "xra:%s:%d" % (rng.choice(["a", "a", "c", "b", "a/x"]), rng.choice([0, 0, 1, 2, 5]))
+    if r < 0.96:
+        return "xrm:%s" % rng.choice(["a/" + rng.choice(KIDS), "c", "a/*", "d"])
+    return "xrm:%s" % rng.choice(["a", "*"])
 
 
 def gen_step(rng, n, api_ok):
@@ -92,6 +102,8 @@ def gen_step(rng, n, api_ok):
         return "%d>%s" % (sid, "&".join(gen_api_cmd(rng, n, sid) for _ in range(rng.choice([1, 1, 2]))))
     if r < 0.17:
         return "%d>un:%s" % (sid, rng.choice(SUBPATS))
+    if r < 0.18 and n > 1:
+        return "%d>dt" % sid
     k = 1 if r < 0.62 else rng.choice([2, 2, 3, 4])
     cmds, seen_gd = [], False
     for _ in range(k):
@@ -139,6 +151,12 @@ DIRECTED = [
     "2|1>su:*/a;0>sd:a:0;0>io:a:-,-;1>un:*/a;0>rm:a/*;1>su:*/a;0>io:a:-",
     # wildcard parents
     "2|1>su:*/*;0>sd:a:0;0>sd:b:0;0>io:*:-,-;0>io:*:I0;0>ro:*/I1:I0;0>rm:*/I0;1>gd:*/*",
+    # a session leaves: its nodes go, watchers see every index drained; later commands of that session are void
+    "3|1>su:*/*;2>su:*/*;0>sd:a:0;0>io:a:-,-;0>io:a/I0:-,-;0>su:*/a;0>dt;0>io:a:-;1>sd:a:0;1>io:a:-;1>dt;2>gd:*/*;2>dt",
+    # save + restore: onto nothing, onto itself, onto a destination with an index, from another session
+    "2|1>su:*/*;0>sd:a:0;0>io:a:-,-,-;0>ro:a/I1:I0;0>sd:a/z:0;0>io:a/I0:-,-;0>xsr:0/a:c:0;0>xsr:0/a:a:0;0>xsr:0/a:c:1;1>xsr:0/a:c:0;1>io:c:I0;1>xsr:0/a:c:0;0>xsr:1/c:a:0",
+    # raw RemoveIndexEntryAt through the node API
+    "2|1>su:*/a;0>sd:a:0;0>io:a:-,-,-;0>xra:a:1;0>xra:a:5;0>xra:a:0;0>xra:a:0;0>xra:a:0;0>xra:b:0",
     # max update items 1 splits Messages but not per-node order
     "2|1>mx:1;1>su:*/*;1>su:*/*/*;0>sd:a:0;0>io:a:-,-,-;0>io:a/I0:-,-;0>rm:a",
 ]
@@ -155,7 +173,7 @@ class CHECK(vlib.Check):
                 "DoRemoveData, DoGetData/GetDataCallback (clear+inserts snapshot, own-subtree short cut on _indexingPresent), SUBSCRIBE / "
                 "REMOVEPARAMETERS, NodeIndexChanged + PushSubscriptionMessages after every (sub-)Message, PR_COMMAND_BATCH, CloneDataNodeSubtree. "
                 "Single wildcard pattern per command (clauses: name or *). Not modelled: query filters, quiet flags, payloads, DATAITEMS, "
-                "Message boundaries of the update stream (only per-client per-node order), node/child count limits, session detach.")
+                "Message boundaries of the update stream (only per-client per-node order), node/child count limits, DataNode::InsertIndexEntryAt called directly.")
     premises = ["subscriber tables equal pattern matching (C04 refcount_inv; compared in the correspondence run through DataNode::GetSubscribers())",
                 "a single-pattern traversal visits exactly the matching nodes depth-first in child-table order (C05)",
                 "no SETDATANODE_FLAG_QUIET / PR_NAME_REMOVE_QUIETLY / PR_NAME_SUBSCRIBE_QUIETLY without a following GETDATA (they suppress notifications by design)",
@@ -198,6 +216,10 @@ class CHECK(vlib.Check):
         s = f.get("signature") or ""
         s = re.sub(r"^\d+ ", "", s)
         return s.split(" : ")[0]
+
+    def fail_key(self, f):
+        sig = re.sub(r"^\d+ ", "", f.get("signature", "")).split(" : ")[0]
+        return (f["kind"], re.sub(r"op#\d+( \w+)?", "op#", sig))
 
     def extra_stage(self, ctx):
         # a correspondence difference in a case that also has an oracle failure or crash is explained by it
